@@ -5,7 +5,8 @@
    setJ5Ext / resolveType / ensureImport and the one-declaration file around a property, over ALL
    abstract fields (field type x rules x list rules x format x key qualifiers x array/map wrapper x
    required/optional, including shapes no source text can produce).  The BCL lexer/parser is C11's;
-   the BCL walker's reflection mechanics are explored by the correspondence streams, not modelled. *)
+   the schema-directed BCL walker is model/CmpbWalk.v + CmpbWalkFile.v (round 3, last block of this file), tied by the
+   'walk' / 'full' correspondence streams. *)
 From Coq Require Import String List NArith ZArith Bool Arith.
 From J5V.lib Require Import Text Outcome.
 From J5V.gen Require SetExtGen PanicGen WalkerGen SourcewalkGen WalkSchemaGen.
